@@ -3,6 +3,7 @@ package main
 import (
 	"encoding/hex"
 	"encoding/json"
+	"regexp"
 	"runtime"
 	"sync"
 	"time"
@@ -126,3 +127,5 @@ func feOne(ch *core.Child, item map[string]any, out any) (string, string) {
 func hexDecode(s string) ([]byte, error) { return hex.DecodeString(s) }
 
 func jsonUnmarshal(b []byte, v any) error { return json.Unmarshal(b, v) }
+
+var regexpBraces = regexp.MustCompile(`\{[^}]*\}`)
